@@ -512,7 +512,7 @@ def mark(k):
 def live_measure():
     total = 0
     for n, v in (W.globals or {}).items():
-        if n.startswith("__"):
+        if n.startswith("__") and n.endswith("__"):   # module dunders only: a script may well call its own variable __xs
             continue
         if isinstance(v, str):
             total += len(v)
